@@ -61,6 +61,58 @@ def same_snapshot(st, snap):
     return np.array_equal(st.R, snap[0]) and np.array_equal(st.S, snap[1]) and np.array_equal(st.phases, snap[2]) and st.num_qubits == snap[3]
 
 
+class _CancelMonitor:
+    """assumption monitor for Q4: wraps the library's pass manager in the verifier process and checks, on every call made by the library, that the output circuit is the
+    input with some pairs of H gates removed that are adjacent on their qubit (nothing added, nothing reordered) and that the input object is left unchanged"""
+
+    def __init__(self, real):
+        self.real = real
+        self.calls = 0
+        self.bad = []
+
+    def run(self, circuit, *a, **k):
+        before = adapt.gates_of(circuit)
+        out = self.real.run(circuit, *a, **k)
+        after_in = adapt.gates_of(circuit)
+        got = adapt.gates_of(out)
+        self.calls += 1
+        if after_in != before or not _is_hh_reduction(before, got) or out is circuit:
+            self.bad.append((before, got))
+        return out
+
+
+def _is_hh_reduction(src, dst):
+    """dst is obtained from src by repeatedly deleting two H gates on one qubit with no other gate on that qubit between them"""
+    per_src, per_dst = {}, {}
+    for lst, per in ((src, per_src), (dst, per_dst)):
+        for idx, (nm, qs) in enumerate(lst):
+            for q in qs:
+                per.setdefault(q, []).append((nm, tuple(qs)))
+    # per-qubit sequences: reduce src's by cancelling adjacent h,h and compare with dst's reduced form; order of gates on different qubits is irrelevant for
+    # the semantics as long as every multi-qubit gate keeps its relative position on each of its qubits
+    def reduce(seq):
+        out = []
+        for g in seq:
+            if out and g[0] == "h" and out[-1] == g:
+                out.pop()
+            else:
+                out.append(g)
+        return out
+    qs = set(per_src) | set(per_dst)
+    return all(reduce(per_src.get(q, [])) == reduce(per_dst.get(q, [])) for q in qs) and len(dst) <= len(src)
+
+
+_MONITOR = [None]
+
+
+def install_monitor():
+    import htstabilizer.stabilizer_circuits as sc
+    if not isinstance(sc.single_qubit_gate_canceller, _CancelMonitor):
+        sc.single_qubit_gate_canceller = _CancelMonitor(sc.single_qubit_gate_canceller)
+    _MONITOR[0] = sc.single_qubit_gate_canceller
+    return _MONITOR[0]
+
+
 def eval_state(job):
     """job = (n, conn, gens(list of (x,z,s)), fmt, orbit or None) -> list of (family, ok, key, what, replay)"""
     n, conn, gens, fmt, orbit = job[:5]
@@ -77,6 +129,8 @@ def eval_state(job):
     def rec(fam, ok, what):
         out.append((fam, bool(ok), f"{fam}:{key}", what, rp))
 
+    mon = install_monitor()
+    calls0, bad0 = mon.calls, len(mon.bad)
     st = mk_stabilizer(n, gens, fmt)
     snap = snapshot(st)
     circuits = []
@@ -84,6 +138,8 @@ def eval_state(job):
         out += _eval_prep(n, conn, gens, label, st, snap, rec, circuits)
     if "readout" in parts:
         out += _eval_readout(n, conn, gens, label, st, snap, rec, circuits)
+    rec("Q4.monitor.cancellation_is_hh_reduction", len(mon.bad) == bad0,
+        f"InverseCancellation on {label} {n}-{conn}: output is not the input with adjacent H pairs removed: {mon.bad[bad0:bad0 + 1]}")
     if not circuits:
         return out
     # connectivity
